@@ -1,6 +1,10 @@
 package main
 
-import "go/token"
+import (
+	"go/token"
+
+	"golang.org/x/tools/go/ssa"
+)
 
 func init() {
 	Register(&Prop{
@@ -43,6 +47,28 @@ func c09(c *Ctx) {
 	}
 	c.Expect(1, len(valLatch), "validation-loop latch")
 	c.Dom("elem", f, valLatch, "loop-latch", nonEmpty)
+	// the non-empty test is applied to every element: the index it uses counts up from 0 in steps
+	// of 1 (the loop bound is the latch condition matched above), or the loop ranges over the slice
+	nIdx := 0
+	eachInstr(f, func(in ssa.Instruction) {
+		ia, ok := in.(*ssa.IndexAddr)
+		if !ok || !values(ia.X) {
+			return
+		}
+		used := false
+		for e := range nonEmpty.Steps[0].Edges {
+			if Mentions(Is(ia))(e.From.Instrs[len(e.From.Instrs)-1].(*ssa.If).Cond) {
+				used = true
+			}
+		}
+		if !used {
+			return
+		}
+		nIdx++
+		c.Check(countsFromZero(ia.Index), "elem-all/"+fnName(f), ia.Pos(), "the index of the non-empty test starts at 0 and advances by 1, so no element escapes it",
+			"the loop that rejects empty values does not start at index 0 / does not advance by 1: some values[i] is never tested, so a range containing a deletion marker is accepted")
+	})
+	c.Expect(1, nIdx, "index of the non-empty value test")
 	cmpKeys := CallRes("bytes.Compare", IndexOf(keys, nil), IndexOf(keys, nil))
 	c.Dom("mono", f, valLatch, "loop-latch",
 		GCond("i>=len(keys)-1", f, Cmp(Any(), token.GEQ, Mentions(Len(keys)))),
@@ -70,4 +96,25 @@ func c09(c *Ctx) {
 		Then(GErrChecked("unsetInternal", c.Calls(f, "trie.unsetInternal"))).
 		Then(hashEq)
 	c.Dom("arms", f, succ, "success-return", A1, A2, A3, A4)
+}
+
+// countsFromZero: v is a loop induction variable phi(0, v+1), or the index of
+// a range loop over a slice (phi(-1, ·)+1 in go/ssa's rangeindex lowering).
+func countsFromZero(v ssa.Value) bool {
+	isK := func(x ssa.Value, k int64) bool { return constIs(x, k) }
+	if b, ok := v.(*ssa.BinOp); ok && b.Op == token.ADD && isK(b.Y, 1) {
+		if phi, ok := b.X.(*ssa.Phi); ok && len(phi.Edges) == 2 {
+			return (isK(phi.Edges[0], -1) && phi.Edges[1] == v) || (isK(phi.Edges[1], -1) && phi.Edges[0] == v)
+		}
+		return false
+	}
+	phi, ok := v.(*ssa.Phi)
+	if !ok || len(phi.Edges) != 2 {
+		return false
+	}
+	step := func(x ssa.Value) bool {
+		b, ok := x.(*ssa.BinOp)
+		return ok && b.Op == token.ADD && b.X == ssa.Value(phi) && isK(b.Y, 1)
+	}
+	return (isK(phi.Edges[0], 0) && step(phi.Edges[1])) || (isK(phi.Edges[1], 0) && step(phi.Edges[0]))
 }
